@@ -3,6 +3,7 @@ package props
 
 import (
 	"bytes"
+	crand "crypto/rand"
 	"encoding/hex"
 	"io"
 	"math/big"
@@ -32,11 +33,21 @@ type sm2Call struct {
 	Za   string `json:"za,omitempty"`
 	PubX string `json:"pubx,omitempty"`
 	PubY string `json:"puby,omitempty"`
+	// ViaGlobal: the simulated device is installed as crypto/rand.Reader and the call is
+	// given crypto/rand.Reader itself (what a caller using the conventional source passes):
+	// a library that treats that particular reader specially sees the faulty device there too.
+	ViaGlobal bool `json:"via_global,omitempty"`
 }
 
 // run executes the call against the library with the given reader. outs are the
 // byte-slice results in order (GenerateKey: priv,x,y; Sign*: r,s).
 func (c *sm2Call) run(rd io.Reader) (outs [][]byte, err error) {
+	if c.ViaGlobal && rd != nil {
+		saved := crand.Reader
+		crand.Reader = rd
+		defer func() { crand.Reader = saved }()
+		rd = crand.Reader
+	}
 	switch c.Op {
 	case "GenerateKey":
 		p, x, y, e := sm2.GenerateKey(rd)
